@@ -178,7 +178,7 @@ class HistoryProperty(Property):
     def _feature_drops(n):
         k = n["k"]
         if k == "dataset":
-            for f in ("fails_if", "mutates", "callback_opt", "callback", "effects", "effects_opt", "log_effects", "options", "default_options", "overloads", "cache", "abstract"):
+            for f in ("returns", "fails_if", "mutates", "callback_opt", "callback", "effects", "effects_opt", "log_effects", "options", "default_options", "overloads", "cache", "abstract"):
                 if n.get(f):
                     m = copy.deepcopy(n)
                     del m[f]
